@@ -416,10 +416,15 @@ structure RqSt where
 
 inductive Step where
   | inv (k : Nat) | fin (k : Nat)
+  /-- health-check events on backend `b`: `up` = the checker saw it recover (SetRestart(true); SetAvail(true):
+      avail := true, failNum := 0), `down` = UpdateStatus took it out (SetAvail(false)).  They may come at any
+      point of a schedule, also while requests are in flight on `b`; they must not touch connNum. -/
+  | up (b : Nat) | down (b : Nat)
 
 inductive StepOut where
   | inv (k : Nat) (r : LR)
   | fin (k : Nat) (act ran : Nat) (panicked : Bool) (conn : Nat → Int)
+  | flip (isUp : Bool) (b : Nat) (conn : Nat → Int)
   | bad
 
 structure G where
@@ -440,6 +445,13 @@ def G.init (cfg : Cfg) (nreq : Nat) : G :=
 /-- the state clusterInvoke starts from -/
 def entryLS (g : G) (rq : ReqSpec) (ch : List Nat) : LS :=
   ⟨g.bs, g.conn, none, 0, .none, false, rq.script, ch, []⟩
+
+/-- BfeBackend.setAvail on backend `b` (global id) -/
+def setAvail (bs : BalSt) (b : Nat) (avail : Bool) : BalSt :=
+  let si := b / 8
+  let j := b % 8
+  let bs1 := { bs with up := setAt bs.up si (setAt (bs.up.getD si []) j avail) }
+  if avail then { bs1 with fails := setAt bs1.fails si (setAt (bs1.fails.getD si []) j 0) } else bs1
 
 /-- what step `i<k>` runs: clusterInvoke, unless a HandleBeforeLocation filter made ServeHTTP return
     (action `act`) before clusterInvoke was reached -/
@@ -472,6 +484,8 @@ def step (pol : Policy) (cfg : Cfg) (reqs : List ReqSpec) (g : G) (st : Step) (c
         { g with conn := conn', rqs := setRq g.rqs k { tb := none, invoked := true, done := true },
                  outs := .fin k fc.1 fc.2.1 fc.2.2 conn' :: g.outs }
     | none => { g with outs := .bad :: g.outs }
+  | .up b => { g with bs := setAvail g.bs b true, outs := .flip true b g.conn :: g.outs }
+  | .down b => { g with bs := setAvail g.bs b false, outs := .flip false b g.conn :: g.outs }
 
 def runSched (pol : Policy) (cfg : Cfg) (reqs : List ReqSpec) : G → List Step → List (List Nat) → G
   | g, [], _ => g
